@@ -7,6 +7,8 @@ class P(C12):
     id = "C13"
 
     def judge_counts(self, line, a, b, ca, cb):
+        if line in self.content_only:
+            return None          # the producer was stalled: a full queue drops, how many arrive is not the question of these cases
         if a[1] != b[1]:
             return "UDPCount is %d after %d received datagrams" % (a[1], b[1])
         if a[2] != b[2]:
